@@ -685,8 +685,12 @@ def _atom_nonneg(a):
         return True
     if t in ("k", "k1"):
         return a[-1] == "half"
-    if t in ("abs", "exp", "ind", "mask"):
+    if t in ("abs", "ind", "mask"):
         return True
+    if t == "exp":
+        # exp(c*m) is a positive real only for a real exponent; for a complex one sqrt(exp(z)) != exp(z/2)
+        # in general (principal branch), so it must not be treated as a positive number
+        return atom_is_real(a)
     if t in ("P", "R"):
         return bool(a[1].t) and all(_mono_nonneg(m) and c.im == 0 and c.re > 0 for m, c in a[1].t.items())
     return False
@@ -747,7 +751,15 @@ def rpow(p, e):
                 else:
                     d[("abs", Poly.atom(a))] = ne
             else:
-                d[("P", Poly.atom(a, x))] = e
+                ee = Fr(x) * e if False else None
+                fr_ = Fr(e)
+                ip_ = math.floor(fr_)
+                rem = fr_ - ip_
+                base = Poly.atom(a, x)
+                if ip_:
+                    d[a] = d.get(a, 0) + x * ip_
+                if rem:
+                    d[("R", base, rem.denominator)] = rem.numerator
         k, mm = _mono_norm(d)
         return out * Poly({mm: k})
     b, n = perfect_root(p)
@@ -999,6 +1011,9 @@ def map_atoms(p, f, _cache=None):
                 kind, inner, den = base
                 if kind == "P":
                     term = term * inner**e
+                elif kind == "EXP":
+                    # the exponent of an exp atom scales its argument: exp(m)^e := exp(e*m)
+                    term = term * exp(inner.scale(GQ(Fr(e))))
                 else:
                     term = term * inner ** Fr(e, den)
             else:
@@ -1025,7 +1040,7 @@ def _map_one(a, f, cache):
         inner = map_atoms(Poly({a[1]: ONE}), f, cache)
         if inner == Poly({a[1]: ONE}):
             return _KEEP
-        return exp(inner if t == "exp" else inner.scale(IMAG))
+        return ("EXP", inner if t == "exp" else inner.scale(IMAG), 1)
     if t == "abs":
         inner = map_atoms(a[1], f, cache)
         return _KEEP if inner == a[1] else absval(inner)
